@@ -34,7 +34,10 @@ P = {
          "least that duration and exactly that duration on a machine without outage configuration (durations_b) - proved by showing "
          "every machine transition is applied exactly when due (provenance lifting: not early; clock invariant: not late) and that a "
          "busy machine's PROCESSING record ends at occupied_till. For stochastic durations: durations_b (which skips them) and "
-         "the event monitors ev_work/ev_due on every implementation state/transition (monitored). " + TIE),
+         "the event clauses, which ARE theorems of every run: every micro-log entry of every decision of every run satisfies ev_work "
+         "(end = now + the duration drawn now for the configured operation on the configured machine, stochastic ones included), "
+         "ev_machine_outage and ev_machine_release with respect to the state it was applied in "
+         "(C02_duration_events_hold_along_every_run; SMP/EventsOk.v, EventsRun.v); the same clauses are evaluated on every implementation transition. " + TIE),
  "C03": ("SM", "Theorems (Props/C03.v; SMP/WF, Preserve, StepInv, Reflect): every job is stored exactly once, every stored number is a "
          "job, locations name the holding buffer, flags agree with stores - preserved by EVERY applied transition with no side "
          "condition, hence in every reachable state and every micro-state under any action sequence, any fuel, any truncation setting "
@@ -101,6 +104,8 @@ P = {
          "micro-state before, and every AGV that takes a job takes it from the release position (both event clauses along the chain of "
          "micro-states: C08_every_taker_takes_the_released_job_every_instance; C08_created_machine_start_names_the_released_job, "
          "C08_pre_buffer_untouched_by_other_machines, C08_offered_machine_start_only_for_unordered_pre_buffer; SMP/Release.v); "
+         "the store clauses ev_stores (remove one / append one) and ev_machine_release are proved of every applied transition and lifted along every run "
+         "(C08_stores_change_by_remove_and_append_along_every_run; SMP/EventsOk.v, EventsRun.v); "
          "extracted event monitors (ev_pre_release, ev_transit_release, ev_stores) on every applied transition. " + TIE),
  "C09": ("SM", "Theorems (Props/C09.v): IDLE->SETUP reads matrix[(mounted tool, new tool)], stamps now + that value, mounts the new tool, "
          "moves the job in; offers only name idle machines; WORKING starts no earlier than the setup end (clock invariant); tool frame; "
@@ -108,13 +113,16 @@ P = {
          "of every run each machine's started operations form a sequence in which every operation's processing starts no earlier than "
          "the end of the one before plus matrix[(tool before, own tool)] (the first: initial tool, episode start), the mounted tool being "
          "the newest one's (C09_setup_sequence_*_every_instance, ghost sequence), and the same on the records alone for neighbouring DONE "
-         "operations (C09_consecutive_operations_separated_*_every_instance, clause setup_gap_b, also evaluated on every implementation state). " + TIE),
+         "operations (C09_consecutive_operations_separated_*_every_instance, clause setup_gap_b, also evaluated on every implementation state); "
+         "the event clauses ev_setup and ev_tool_frame hold of every micro-log entry of every run (C09_setup_events_hold_along_every_run). " + TIE),
  "C10": ("SM", "Theorems (Props/C10.v): WORKING->OUTAGE / TRANSIT->OUTAGE block for exactly the longest sampled active outage, durations "
          "non-negative, no outage when none is due, release makes every record inactive and remembers its own end time, an OUTAGE "
          "component accepts only the release transition; over whole runs: outside OUTAGE every record is inactive and active records "
          "have start <= end in every reachable state and micro-state (C10_outage_records_*, SMP/Outages.v, no side condition); the "
          "sampling clause the monitors evaluate on every outage-sampling transition (started exactly when due / with exactly the "
-         "configured duration for deterministic definitions) is proved true of the model's sampler (C10_sampling_clause_holds_of_the_model). " + TIE),
+         "configured duration for deterministic definitions) is proved true of the model's sampler (C10_sampling_clause_holds_of_the_model) "
+         "and, with ev_machine_outage / ev_machine_release / ev_transport_release, of every micro-log entry of every run "
+         "(C10_outage_events_hold_along_every_run). " + TIE),
  "C11": ("SM", "Theorems (Props/C11.v; SMP/Offers): every offered transport/machine transition passes validation and names a ready job "
          "(offers_are_valid); over whole runs of every instance every offer of every "
          "reachable result is valid in the state it is offered in (C11_every_offer_is_valid_in_every_run_every_instance, SMP/OffersValid.v). "
